@@ -44,8 +44,8 @@ QUICK_FORMS = {1: ['laplace', 'fun', 'fun2'], 2: ['mass', 'conv', 'fun', 'fun2']
 ALL_FORMS = {1: ['mass', 'laplace', 'conv', 'fun', 'fun2'], 2: ['mass', 'laplace', 'conv', 'fun', 'fun2']}
 
 
-def make_args(dim, affine=True):
-    """geometry and (polynomial) coefficient fields"""
+def make_args(dim, affine=True, scale=None):
+    """geometry (optionally scaled per axis by powers of two) and (polynomial) coefficient fields in parametric coordinates"""
     from pyiga import bspline, geometry
     if dim == 1:
         geo = geometry.line_segment(0.5, 2.5)
@@ -55,6 +55,8 @@ def make_args(dim, affine=True):
         geo = geometry.unit_square().scale((2.0, 0.5)).translate((1.0, -1.0)) if affine else geometry.quarter_annulus()
         b = geometry.unit_square().translate((1.0, 2.0))
         f = bspline.BSplineFunc(2 * (bspline.make_knots(1, 0.0, 1.0, 1),), np.array([[1.0, 2.0], [3.0, 5.0]]))
+    if scale is not None:
+        geo = geo.scale(tuple(float(x) for x in scale) if dim > 1 else float(scale[0]))
     return {'geo': geo, 'b': b, 'f': f}
 
 
@@ -283,7 +285,7 @@ def run(ctx):
                     'the compiled level assemblers (C01) are inputs: the model uses the implementation\'s own full level matrices']
     ctx.assumptions += ['polynomial exactness of Gauss quadrature (oracle I^T A_fine I, affine geometry and polynomial coefficients only)',
                         'cell_supp_indices / represent_fine inputs are those of the HSpace (C04 / C05)',
-                        'values: exact Rat on the implementation\'s doubles, bound 64 eps (L+2) |A|_inf |I|_inf^2']
+                        'values: exact Rat on the implementation\'s doubles, bound 64 eps (L+2) |A|_inf |I|_inf^2, relative to the entry scale (no absolute floor)']
     ctx.rule = ('random refinement histories (corner, isolated-cell, multi-level marks), 1-D 2..6 cells p 1..3 up to 4 levels, 2-D 2..3 cells/axis '
                 'p 1..2 up to 3 (thorough 4) levels, disparity 1/2/inf, truncate on/off, bdspecs None/[]/faces; forms: mass, Laplace, '
                 'non-symmetric convection with a coefficient field, two functionals with the same input field (f v, f^2 v); per history ONE '
@@ -293,7 +295,8 @@ def run(ctx):
                 'failure-and-retry histories on one object: the first assemble_matrix() raises inside the assembly (an asm_args entry missing '
                 'or raising on use), the caller repairs asm_args, matrix / functional / matrix are retried and compared with the stateless '
                 'model, and hdiscr.truncate / hs.truncate must be unchanged after the exception; '
-                'affine and (2-D) quarter-annulus geometry; non-trivial = >= 2 levels')
+                'affine and (2-D) quarter-annulus geometry, scaled per axis by powers of two 2^-30 .. 2^20 (isotropic and anisotropic), all '
+                'comparisons relative to the entry scale; non-trivial = >= 2 levels')
     vfs = {}
     for d in (1, 2):
         for n in forms[d]:
@@ -329,13 +332,32 @@ def run(ctx):
         ctx.count('levels=%d' % L); ctx.count('bdspecs=%s' % ['None', '[]', 'faces'][bmode])
         if len(ctx.samples) < 5 and L >= 3:
             ctx.sample(desc)
-        args = make_args(dim, affine)
+        # physical size over many decades (powers of two: the level-wise Galerkin quantities rescale exactly):
+        # isotropic or anisotropic, 2^-30 .. 2^20; a quarter of the histories stay at unit scale
+        smode = int(rng.integers(0, 4))
+        if smode == 0:
+            sexp = [0] * dim
+        elif smode == 1:
+            sexp = [int(rng.integers(-30, 21))] * dim
+        elif smode == 2:
+            sexp = [int(rng.integers(-30, 21)) for _ in range(dim)]
+        else:
+            sexp = [int(rng.choice([-30, -20, -10, 10, 20]))] * dim
+        # stratum: the first histories of every run cover the extreme scales with every matrix form
+        strata = {0: -30, 1: -30, 2: -20, 3: 20, 4: -30, 5: -20, 6: 20, 7: 10}
+        if it in strata:
+            sexp = [strata[it]] * dim
+        desc['geometry_scale_log2'] = sexp
+        ctx.count('geometry scale: %s' % ('unit' if not any(sexp) else 'tiny (<= 2^-15)' if min(sexp) <= -15 else 'huge (>= 2^10)' if max(sexp) >= 10 else 'moderate'))
+        args = make_args(dim, affine, [2.0 ** e for e in sexp])
         dsp = -1 if disparity == np.inf else int(disparity)
         mats = [n for n in forms[dim] if FORMS[n][1] is not None and (n, dim) in vfs]
         funs = [n for n in forms[dim] if FORMS[n][1] is None and (n, dim) in vfs]
         if not mats or len(funs) < 2:
             continue
         mname = mats[int(rng.integers(0, len(mats)))]
+        if it < 8:      # (form, scale) strata: 2-D first form at 2^-30, 2^-20, 2^20 and second form at 2^-30; 1-D forms in turn
+            mname = mats[({0: 0, 2: 0, 4: 1, 6: 0}[it] if dim == 2 else it // 2) % len(mats)]
         fA, fB = funs[0], funs[1]
         # ONE HDiscretization object per history; sequence: matrix, functional A, functional B (other integrand, same
         # inputs), functional A again, matrix again (symmetric flag if the form is symmetric); then one more refinement
@@ -433,7 +455,7 @@ def run(ctx):
                 bad = 'model rejected the request'
             elif kind == 'fun':
                 vals = np.array([float(__import__('fractions').Fraction(t)) for t in g.split()[1:]])
-                mag = max(1.0, float(np.abs(vals).max()) if len(vals) else 1.0)
+                mag = float(np.abs(vals).max()) if len(vals) else 0.0      # relative to the entry scale: a zero vector cannot pass
                 if vals.shape != e.shape or (len(vals) and np.abs(vals - e).max() > 64 * EPS * (L + 2) * mag * 4):
                     bad = 'assembled functional differs from the model by %.3e' % (np.abs(vals - e).max() if vals.shape == e.shape else np.inf)
             else:
@@ -444,7 +466,7 @@ def run(ctx):
                     bad = 'to_assemble passed to the level assembler differs: implementation %s, model %s' % (str(ta_impl)[:200], str(ta_model)[:200])
                 else:
                     ok, d, nrm = mat_diff(parse_mat(parts[3]), A_impl)
-                    tol = 64 * EPS * (L + 2) * max(1.0, nrm) * 4
+                    tol = 64 * EPS * (L + 2) * nrm * 4        # relative to |A|_inf of the exact model value: a zero matrix cannot pass
                     if not ok or d > tol:
                         bad = 'assembled matrix differs from the model sum of level contributions by %.3e (bound %.2e)' % (d, tol)
         except Exception as ex:
@@ -493,7 +515,7 @@ def oracle(hs, m, e):
             T = hs.thb_to_hb()
             want = T.T @ want
             fine = T.T @ fine if fine is not None else None
-        mag = max(1.0, float(np.abs(want).max()))
+        mag = float(np.abs(want).max())
         if want.shape != np.shape(e):
             return 'functional: vector of length %s returned, the space has %d dofs' % (np.shape(e), len(want))
         if np.abs(want - e).max() > 256 * EPS * (L + 2) * mag:
@@ -506,7 +528,7 @@ def oracle(hs, m, e):
     want, fine = oracle_matrix(hs, A_lv, hs.truncate, affine)
     if want.shape != A.shape:
         return 'matrix of shape %s returned, the space has %d dofs' % (A.shape, want.shape[0])
-    mag = max(1.0, float(np.abs(want).max()))
+    mag = float(np.abs(want).max())
     d = np.abs(want - A)
     if d.max() > 256 * EPS * (L + 2) * mag * 8:
         i, j = np.unravel_index(int(d.argmax()), d.shape)
